@@ -90,6 +90,25 @@ def seed_entries():
     return out
 
 
+def benign_entries():
+    """behaviour-preserving refactorings written by independent sub-agents (/verif/benign): every
+    property must stay green on each of them"""
+    out = []
+    d = os.path.join(HERE, 'benign')
+    if not os.path.isdir(d):
+        return out
+    props = sorted(fn[:-3].upper() for fn in os.listdir(os.path.join(HERE, 'rules'))
+                   if fn.startswith('c') and fn[1:3].isdigit() and fn.endswith('.py'))
+    for bid in sorted(os.listdir(d)):
+        try:
+            patch = open(os.path.join(d, bid, 'patch.diff')).read()
+        except OSError:
+            continue
+        for prop in props:
+            out.append(('benign-' + bid, prop, '<patch>', patch, '', 'ok'))
+    return out
+
+
 def run_variant(args):
     ident, prop, module, old, new, expected, sources = args
     if module == '<patch>':
@@ -128,7 +147,7 @@ def run_variant(args):
 
 def run_for(prop=None, jobs=None, only=None):
     sources = srcmodel.load_sources()
-    todo = [e for e in entries() + seed_entries()
+    todo = [e for e in entries() + seed_entries() + benign_entries()
             if (prop is None or e[1] == prop) and (only is None or only in e[0])]
     args = [e + (sources,) for e in todo]
     jobs = jobs or min(16, max(1, len(args)))
